@@ -58,7 +58,8 @@ def gen(r, tier):
             ops.append({"op": "icmp", "t": round(r.uniform(0, t + 3), 4), "peer": r.randrange(npeers),
                         "errno": r.choice([111, 113])})
     ops.sort(key=lambda o: o["t"])
-    return {"npeers": npeers, "ops": ops, "senderr": round(r.uniform(0.02, 0.15), 3) if r.chance(0.12) else 0}
+    return {"npeers": npeers, "ops": ops, "senderr": round(r.uniform(0.02, 0.15), 3) if r.chance(0.12) else 0,
+            "same_host": r.chance(0.3)}
 
 
 def systematic(tier):
@@ -195,12 +196,17 @@ def execute(sim, scn):
     for tag, op in enumerate(scn["ops"]):
         if op["op"] in ("req", "srv"):
             plans[op["peer"]][tag] = op
-    peers = [Peer(sim, common.PEER_IPS[i], 5683, plans[i]) for i in range(scn["npeers"])]
+    if scn.get("same_host"):
+        # the peers are processes on one host (one IP address, different ports): still different endpoints
+        peers = [Peer(sim, common.PEER_IPS[0], 5683 + i, plans[i]) for i in range(scn["npeers"])]
+        sim.probe("peers_share_a_host")
+    else:
+        peers = [Peer(sim, common.PEER_IPS[i], 5683, plans[i]) for i in range(scn["npeers"])]
 
     def submit(tag, op):
         spec = {"ACK_TIMEOUT": op["ato"], "MAX_RETRANSMIT": op["mr"]}
         tun = common.make_tuning(spec) if op["con"] else common.make_tuning(spec, base=Unreliable)
-        msg = Message(code=GET, uri="coap://[%s]/t%d" % (peers[op["peer"]].addr[0], tag), transport_tuning=tun)
+        msg = Message(code=GET, uri="coap://[%s]:%d/t%d" % (peers[op["peer"]].addr[0], peers[op["peer"]].addr[1], tag), transport_tuning=tun)
         if op.get("bad"):
             msg.payload = "text, not bytes: cannot be serialised"
             sim.probe("unsendable_message")
